@@ -2,7 +2,8 @@
 """C09 Restart independence: results do not depend on where the daemon was restarted."""
 import copy, itertools, json, os, random, shutil, sys, time
 sys.path.insert(0, os.path.dirname(os.path.abspath(__file__)))
-import vlib, ledger, scen, findings
+import vlib, ledger, scen
+import c13, findings
 
 PID = "C09"
 
@@ -60,6 +61,11 @@ def main():
             chains.append(pattern_chain("c09-p%d" % k, seed * 100 + k, pat, P) + (pat,))
         m = scen.mixed_chain(seed + 5, name="c09-mixed", blocks=10, pip10=10, unrated_p=0.3)
         chains.append((m, 8, None))
+        # an asset without a usable average for a while, with the ledger-level read methods of the API called after every block:
+        # what a reader left in memory may not matter either (a restart after the read forgets it, the uninterrupted run does not)
+        z = c13.live(seed + 23, 0, tier)
+        z.s["name"] = "c09-zeroavg"
+        chains.append((z, z.s["sched"]["PIP10"], None))
         docs, meta = [], {}
         for (s, base, pat) in chains:
             doc = s.doc()
@@ -75,7 +81,7 @@ def main():
             for (vn, rs) in variants:
                 d = copy.deepcopy(doc)
                 d["name"] = "%s-%s" % (name, vn)
-                d["control"] = {"restarts": rs}
+                d["control"] = dict(doc.get("control") or {}, restarts=rs)
                 docs.append((d["name"], d))
                 meta[d["name"]] = (name, vn, rs)
         results = ledger.run_all(docs, work, dump=True)
